@@ -16,8 +16,8 @@
 
 enum { L_GOOD = 0, L_EXPIRED_LEAF, L_NOTYET_LEAF, L_UNTRUSTED, L_SIG_CORRUPT, L_WRONG_NAME, L_ISSUER_NOT_CA, L_UNKNOWN_CRIT, L_EXPIRED_INT, L_SELF_SIGNED, L_WRONG_KEY, L_ANCHOR_PATHLEN, L_INT_PATHLEN, L_NO_TRUST, L_N };
 static const char *lname[] = { "good", "expired-leaf", "not-yet-valid-leaf", "untrusted-ca", "signature-corrupt", "wrong-expected-name", "issuer-not-ca", "unknown-critical-extension", "expired-intermediate", "self-signed-unanchored", "wrong-key-proof-of-possession", "anchor-pathlen-exceeded", "intermediate-pathlen-exceeded", "verifier-has-no-trust-anchors" };
-enum { CB_NONE = 0, CB_STRICT, CB_PERMISSIVE };
-static const char *cbname[] = { "no-callback", "strict-callback", "permissive-callback" };
+enum { CB_NONE = 0, CB_STRICT, CB_PERMISSIVE, CB_ANON, CB_N };   /* CB_ANON: the server's callback answers SSL_ALLOW_ANON_CONNECTION (continue, peer treated as anonymous) */
+static const char *cbname[] = { "no-callback", "strict-callback", "permissive-callback", "allow-anon-callback" };
 typedef struct { const char *name; int ver; uint16_t suite; int leafType; int verifierIsServer; } scn_t;
 static const scn_t scns[] = {
     { "rsa-kx", MX_TLS11, 0x002f, CG_K_RSA2048, 0 }, { "ecdhe-rsa", MX_TLS11, 0xc013, CG_K_RSA2048, 0 },
@@ -33,6 +33,7 @@ static const scn_t scns[] = {
 static int cb_calls, cb_nonzero, cb_last;
 static int32 cb_strict(ssl_t *ssl, psX509Cert_t *c, int32 alert) { (void) ssl; (void) c; cb_calls++; cb_last = alert; if (alert) cb_nonzero++; return alert; }
 static int32 cb_permissive(ssl_t *ssl, psX509Cert_t *c, int32 alert) { (void) ssl; (void) c; cb_calls++; cb_last = alert; if (alert) cb_nonzero++; return 0; }
+static int32 cb_anon(ssl_t *ssl, psX509Cert_t *c, int32 alert) { (void) ssl; (void) c; cb_calls++; cb_last = alert; if (alert) cb_nonzero++; return SSL_ALLOW_ANON_CONNECTION; }
 
 typedef struct { char *chainPem, *keyPem, *caPem; const char *expected; } cred_t;
 static void append(char **dst, char *src) { size_t a = *dst ? strlen(*dst) : 0, b = strlen(src); *dst = realloc(*dst, a + b + 1); memcpy(*dst + a, src, b + 1); free(src); }
@@ -116,7 +117,7 @@ static void run_case(void *a_)
         mx_cfg cfg = { .ver = s->ver, .suite = s->suite, .clientAuth = s->verifierIsServer, .skeys = s->verifierIsServer ? vk : pk, .ckeys = s->verifierIsServer ? pk : vk,
                        .expectedName = cr.expected }; mx_conn k; sslSessionId_t *sid; matrixSslNewSessionId(&sid, NULL); sslSessOpts_t o;
         memset(&k, 0, sizeof k); k.cfg = cfg; k.dtls = MX_IS_DTLS(s->ver);
-        sslCertCb_t vcb = c->cb == CB_NONE ? NULL : c->cb == CB_STRICT ? cb_strict : cb_permissive;
+        sslCertCb_t vcb = c->cb == CB_NONE ? NULL : c->cb == CB_STRICT ? cb_strict : c->cb == CB_ANON ? cb_anon : cb_permissive;
         cb_calls = cb_nonzero = cb_last = 0;
         /* sessions are created here (not through mx_new_*) because the callback choice belongs to the verifying side only */
         mx_opts(&o, &cfg, MX_SERVER); memset(&k.s, 0, sizeof k.s); k.s.role = MX_SERVER; k.s.ver = s->ver; k.s.id = 1; k.s.name = "S";
@@ -138,7 +139,7 @@ static void run_case(void *a_)
             else { unsigned char p[64]; mx_payload(p, 64, 0x0c04, 0, 1); mx_send(&k.c, p, 64); mx_conn_run(&k, NULL, NULL, 20); if (k.s.gotlen != 64) report(c, "good-credentials-refused", "no data after completion"); else vf_stat("positive_controls_ok", 1); }
         } else if (vdone) {
             if (c->label == L_WRONG_KEY) report(c, "completed-without-proof-of-possession", "verifier completed although the peer holds a different private key than the certificate's");
-            else if (c->cb != CB_PERMISSIVE) report(c, "completed-despite-validation-failure", "verifier completed (callback calls %d, non-zero alerts %d, last %d)", cb_calls, cb_nonzero, cb_last);
+            else if (c->cb != CB_PERMISSIVE && c->cb != CB_ANON) report(c, "completed-despite-validation-failure", "verifier completed (callback calls %d, non-zero alerts %d, last %d)", cb_calls, cb_nonzero, cb_last);
             else if (cb_nonzero == 0) report(c, "failure-not-shown-to-callback", "verifier completed with a permissive callback that was never shown a non-zero alert (calls %d)", cb_calls);
             else vf_stat("application_override_honoured", 1);
         } else {
@@ -239,7 +240,8 @@ int main(int argc, char **argv)
     /* key pool before fork()ing so that all children share it */
     for (int t = 0; t < 3; t++) for (int i = 0; i < 6; i++) if (!cg_key_get(t == 0 ? CG_K_RSA2048 : t == 1 ? CG_K_P256 : CG_K_ED25519, i)) { fprintf(stderr, "HARNESS: keygen failed\n"); return 2; }
     long idx = 0;
-    for (int si = 0; si < NSCN; si++) for (int l = 0; l < L_N; l++) for (int cb = 0; cb < 3; cb++) for (int via = 0; via < 2; via++) {
+    for (int si = 0; si < NSCN; si++) for (int l = 0; l < L_N; l++) for (int cb = 0; cb < CB_N; cb++) for (int via = 0; via < 2; via++) {
+        if (cb == CB_ANON && (!scns[si].verifierIsServer || via)) continue;                 /* SSL_ALLOW_ANON_CONNECTION is a server-side answer */
         if (scns[si].verifierIsServer && (l == L_WRONG_NAME || cb == CB_NONE)) continue;   /* a server asks for a client certificate by registering a callback */
         /* chain shape: the leaf directly under the anchor, or under an intermediate CA that the peer sends along (the defect, if any, sits in a non-last certificate on the wire) */
         if (via && (l == L_ISSUER_NOT_CA || l == L_EXPIRED_INT || l == L_ANCHOR_PATHLEN || l == L_INT_PATHLEN || l == L_SELF_SIGNED || l == L_NO_TRUST)) continue;
